@@ -160,7 +160,7 @@ def run_property(mod, pid, tier, seed, t0):
     extract.clear_cache()
     harnesses = mod.harnesses(tier)
     res = generate(harnesses)
-    res.solve_s = core.discharge_all(res.obligations, budget=budget)
+    res.solve_s = core.discharge_all(res.obligations, budget=budget, deadline_s=(150 if tier == 'quick' else 1200))
     by_status, by_backend = summarize(res.obligations)
     proof_obs = [ob for ob in res.obligations if ob.expect == 'unsat']
     covers = [ob for ob in res.obligations if ob.expect == 'sat']
